@@ -37,6 +37,18 @@ func main() {
 	if os.Getenv("GOGC") == "" {
 		debug.SetGCPercent(1000) // allocation-heavy replays; memory is plentiful
 	}
+	if os.Getenv("GOMEMLIMIT") == "" {
+		// ... but not unlimited: above a third of the machine's memory the collector works as hard as it has to
+		// (a lazy collector let a thorough run grow to 37 GB and be killed)
+		limit := int64(16 << 30)
+		if b, err := os.ReadFile("/proc/meminfo"); err == nil {
+			var kb int64
+			if _, err := fmt.Sscanf(string(b), "MemTotal: %d kB", &kb); err == nil && kb > 0 {
+				limit = kb * 1024 / 3
+			}
+		}
+		debug.SetMemoryLimit(limit)
+	}
 	id := os.Args[1]
 	if pf := os.Getenv("VERIF_PPROF"); pf != "" {
 		f, _ := os.Create(pf)
